@@ -108,7 +108,7 @@ class Gen:
             "cg_tolerance": [1, 1, 1e-3, 1e-9],
             "tridiagonal_jitter": [1e-6, 1e-6, 0.0, 1e-3],
             "cholesky_max_tries": [3, 3, 1, 5],
-            "preconditioner_tolerance": [1e-3, 1e-3, 1e-9],
+            "preconditioner_tolerance": [1e-3, 1e-3, 1e-9, 0.3],
             "fast_root": [None, True, False],
             "fast_log_prob": [None, True, False],
             "fast_solves": [None, True, False],
